@@ -112,3 +112,17 @@ def is_sym(x):
     from vf.symx import is_symbolic
 
     return is_symbolic(x) or isinstance(x, SV)
+
+
+def wrap(a):
+    """keep derived arrays analysable: object arrays become SArr (astype(float) is then a no-op)"""
+    a = np.asarray(a) if not isinstance(a, np.ndarray) else a
+    if a.dtype == object:
+        from vf.symx import SArr
+
+        return a.view(SArr)
+    return a
+
+
+def cat(*arrs, axis=0):
+    return wrap(np.concatenate(arrs, axis=axis))
